@@ -21,11 +21,31 @@ type VerifStreamConn struct {
 	Written [][]byte
 	Closed  bool
 	NoSplit bool // deliver every phase as one segment
+	// Stream: data stage. Every Read delivers the next phase as one segment without waiting
+	// for a reply; after the last phase the connection fails with VerifErrReset.
+	Stream bool
 }
+
+var VerifErrReset = errors.New("connection reset by peer")
 
 var VerifErrEOF = errors.New("EOF")
 
 func (c *VerifStreamConn) Read(p []byte) (int, error) {
+	if c.Stream {
+		if c.phase < len(c.Phases) {
+			if c.pos == len(c.Phases[c.phase]) {
+				c.phase++
+				c.pos = 0
+			}
+		}
+		if c.phase >= len(c.Phases) {
+			return 0, VerifErrReset
+		}
+		cur := c.Phases[c.phase]
+		n := copy(p, cur[c.pos:])
+		c.pos += n
+		return n, nil
+	}
 	if c.phase >= len(c.Phases) {
 		return 0, VerifErrEOF
 	}
